@@ -26,10 +26,10 @@ fn node_body(case: &Value, i: usize) -> Vec<u8> {
         s += &format!("/Parent {} 0 R ", parent);
     }
     if has("mset") {
-        s += &format!("/MediaBox [0 0 {} {}] /Resources << /ExtGState << /GS{} << /LW 1 >> >> >> ", 100 + i, 200 + i, i);
+        s += &format!("/MediaBox [3 7 {} {}] /Resources << /ExtGState << /GS{} << /LW 1 >> >> >> ", 100 + i, 200 + i, i);
     }
     if has("cset") {
-        s += &format!("/CropBox [1 1 {} {}] ", 50 + i, 60 + i);
+        s += &format!("/CropBox [1 2 {} {}] ", 50 + i, 60 + i);
     }
     s += ">>";
     s.into_bytes()
@@ -70,12 +70,18 @@ fn marker(p: &PageRc) -> i64 {
 
 fn observe_page(p: &PageRc) -> Value {
     let m = match guarded(|| p.media_box()) {
-        Outcome::Done(Ok(r)) => json!(r.right as i64 - 100),
+        // node i carries /MediaBox [3 7 100+i 200+i]: all four numbers must be those of one node
+        Outcome::Done(Ok(r)) => if r.left == 3.0 && r.bottom == 7.0 && r.top == r.right + 100.0 { json!(r.right as i64 - 100) } else { json!({"box": format!("{:?}", r)}) },
         Outcome::Done(Err(e)) => if err_kind(&e) == "Type" { json!(0) } else { err_json(&e) },
         Outcome::Panic(pi) => panic_json(&pi),
     };
     let c = match guarded(|| p.crop_box()) {
-        Outcome::Done(Ok(r)) => { let x = r.right as i64; if x >= 100 { json!(100 + (x - 100)) } else { json!(x - 50) } }
+        // /CropBox [1 2 50+i 60+i], or the media box it falls back to
+        Outcome::Done(Ok(r)) => {
+            let x = r.right as i64;
+            let whole = if x >= 100 { r.left == 3.0 && r.bottom == 7.0 && r.top == r.right + 100.0 } else { r.left == 1.0 && r.bottom == 2.0 && r.top == r.right + 10.0 };
+            if !whole { json!({"box": format!("{:?}", r)}) } else if x >= 100 { json!(100 + (x - 100)) } else { json!(x - 50) }
+        }
         Outcome::Done(Err(e)) => if err_kind(&e) == "Type" { json!(0) } else { err_json(&e) },
         Outcome::Panic(pi) => panic_json(&pi),
     };
